@@ -253,7 +253,7 @@ pub fn run_chain(cfg: &ChainCfg) -> Result<(f64, u64, u64), String> {
 pub fn main(tier: &str, seed: u64, outdir: &str) {
     let mut cases = Cases::new();
     let mut rep = Report::new("C08");
-    let n = if tier == "thorough" { 12000 } else { 1500 };
+    let n = if tier == "thorough" { 150000 } else { 1500 };
     for case in 0..n {
         let mut r = Sm::new(seed, "C08", case);
         let lowrank = case % 3 == 2;
@@ -273,7 +273,7 @@ pub fn main(tier: &str, seed: u64, outdir: &str) {
         }
     }
     // part B
-    let nb = if tier == "thorough" { 150 } else { 24 };
+    let nb = if tier == "thorough" { 1500 } else { 24 };
     for case in 0..nb {
         let mut r = Sm::new(seed, "C08B", case);
         let lowrank = case % 2 == 1;
